@@ -194,6 +194,11 @@ pub proof fn lemma_dec_val_shift(s: Seq<u8>, t: Seq<u8>, off: int, a: int, b: in
             }
 //@before /if need > 0 \{/
     let ghost need0 = need as int;
+    proof {
+        assert(pow10(0) == 1);
+        assert(dec_val(s, i0, i0) == 0);
+        assert(sig0 * 1 == sig0) by (nonlinear_arith);
+    }
 //@loop 1
                 invariant 0 <= i0 <= *index <= s.len(), data@ == s, 0 <= need, need0 <= 16,
                     need == need0 - (*index - i0), s.len() <= 0x1fff_ffff,
